@@ -142,10 +142,11 @@ func init() {
 		Batches: []batchSpec{
 			{Name: "fault-free", World: "http", Weight: 6},
 			{Name: "fault-free-l2", World: "http", Weight: 2, Park: 0.002, Gos: 0.01},
+			{Name: "plugins", World: "httpplugins", Weight: 2},
 		},
-		Stub: []string{"network (simnet)", "raw HTTP/1.1 users", "recording HTTP/1.1 backend", "clock"},
-		Rule: "one run = real frps + real frpc with an http proxy (drawn Host rewrite, request/response header sets, encryption, compression, bandwidth limit, mux, TLS, pool) and 1-4 keep-alive user connections each sending 1-8 generated requests (methods, percent-encoded paths, queries, multi-valued mixed-case headers, content-length and chunked bodies) answered by a recording backend with generated responses (status, headers, content-length/chunked/close-delimited bodies); concurrently one request to an unreachable and one to a silent backend; distinct = distinct event-log hash",
-		Assume: []string{"client plugins http2http/http2https/https2http/https2https, WebSocket upgrade and CONNECT through the vhost port are not exercised yet", "the proxy's HTTP client may add 'Accept-Encoding: gzip' when the user sent none; header order across different names is not compared"},
+		Stub: []string{"network (simnet)", "raw HTTP/1.1 users (plain or over crypto/tls)", "recording HTTP/1.1 backend (plain or TLS)", "clock"},
+		Rule: "one run = real frps + real frpc with an http proxy (drawn Host rewrite, request/response header sets, encryption, compression, bandwidth limit, mux, TLS, pool) and 1-4 keep-alive user connections each sending 1-8 generated requests (methods, percent-encoded paths, queries, multi-valued mixed-case headers, content-length and chunked bodies) answered by a recording backend with generated responses (status, headers, content-length/chunked/close-delimited bodies); concurrently one request to an unreachable and one to a silent backend, 0-3 protocol-upgrade or CONNECT tunnels with 0-48 KB per direction, and (half of the runs) a second proxy on the same host routed by http user with its own backend; batch plugins: the same request/response generator through the http2http, http2https, https2http and https2https client plugins behind an http, https or tcp proxy; distinct = distinct event-log hash",
+		Assume: []string{"behind a plain tcp proxy no component in front of the plugin knows the user's address, so X-Forwarded-For is not checked there", "HTTP/2 to the https2http(s) plugins is not exercised (enableHTTP2=false)", "the proxy's HTTP client may add 'Accept-Encoding: gzip' when the user sent none; header order across different names is not compared"},
 	})
 	reg(&propSpec{ID: "C06", Level: "exploration",
 		Batches: []batchSpec{
@@ -508,6 +509,8 @@ func checkProperty(id, tier string, seed uint64, budget time.Duration, maxRuns i
 	known := loadKnown()
 	var mu sync.Mutex
 	var founds []found
+	knownSeen := map[string]int{}
+	nUnknown := 0
 	var otherProps = map[string]int{}
 	deadline := time.Now().Add(wall)
 	jobs := make(chan int)
@@ -547,10 +550,19 @@ func checkProperty(id, tier string, seed uint64, budget time.Duration, maxRuns i
 				}
 				for _, v := range res.Violations {
 					if v.Property == id {
-						if len(founds) < 64 {
+						if kf := isKnown(known, v); kf != nil {
+							// a listed finding: counted, one example kept, never crowds out other violations
+							knownSeen[v.Oracle+"/"+v.Sig]++
+							if knownSeen[v.Oracle+"/"+v.Sig] == 1 {
+								founds = append(founds, found{in, res, v})
+							}
+							continue
+						}
+						nUnknown++
+						if nUnknown <= 64 {
 							founds = append(founds, found{in, res, v})
 						}
-						if isKnown(known, v) == nil && len(founds) >= 3 {
+						if nUnknown >= 3 {
 							stop = true
 						}
 					} else {
@@ -598,8 +610,7 @@ func checkProperty(id, tier string, seed uint64, budget time.Duration, maxRuns i
 	for _, k := range order {
 		g := groups[k]
 		if kf := isKnown(known, g.f.v); kf != nil {
-			fmt.Printf("KNOWN-FINDING: property=%s %s [%s/%s] (%d runs this batch)\n", id, kf.Description, g.f.v.Oracle, g.f.v.Sig, g.count)
-			continue
+			continue // printed below, once per listed finding
 		}
 		// minimise + confirm
 		min := minimise(bld, runDir, p, g.f)
@@ -637,6 +648,13 @@ func checkProperty(id, tier string, seed uint64, budget time.Duration, maxRuns i
 		fmt.Fprintf(os.Stderr, "simrun: too many harness errors/hangs (%d+%d of %d): %v\n", st.errors, st.hangs, st.runs, st.errSamples)
 		exit = 2
 	}
+	// every listed (open) finding of this property is announced, seen in this batch or not
+	for _, kf := range known {
+		if kf.Status == "open" && kf.Property == id {
+			fmt.Printf("KNOWN-FINDING: property=%s %s [%s/%s] (seen in %d runs of this batch)\n", id, kf.Description, kf.Oracle, kf.Sig, knownSeen[kf.Oracle+"/"+kf.Sig])
+		}
+	}
+	evKnownSeen = knownSeen
 	writeEvidence(p, tier, seed, st, nviol, otherProps, flaky, bld)
 	fmt.Fprintf(os.Stderr, "simrun: %s %s: runs=%d ok=%d viol=%d err=%d hang=%d crash=%d nontrivial=%d distinct=%d simtime=%.0fs wall=%.1fs exit=%d\n",
 		id, tier, st.runs, st.ok, st.violations, st.errors, st.hangs, st.crashes, st.nontrivial, len(st.ntHashes), st.simTime, time.Since(startWall).Seconds(), exit)
@@ -907,6 +925,8 @@ func doReplay(path string) int {
 
 // ---------------------------------------------------------------- evidence
 
+var evKnownSeen map[string]int
+
 func writeEvidence(p *propSpec, tier string, seed uint64, st *batchStats, nviol int, other map[string]int, flaky []string, bld *build) {
 	wall := time.Since(startWall).Seconds()
 	faults := map[string]int{}
@@ -970,6 +990,9 @@ func writeEvidence(p *propSpec, tier string, seed uint64, st *batchStats, nviol 
 		"assumptions": p.Assume,
 		"wall_s":      wall,
 		"violations":  nviol,
+	}
+	if len(evKnownSeen) > 0 {
+		ev["known_findings_seen"] = evKnownSeen
 	}
 	evDir := filepath.Join(verifDir, "evidence")
 	if repoDir != "/repo" || os.Getenv("VERIF_ONLY_BATCH") != "" {
